@@ -228,7 +228,7 @@ func runCheck(pid, tier, repo, verif string, writeFiles, jsonOut bool) int {
 
 	configs := []map[string]any{{"config": "default", "packages": len(c.Pkgs), "functions": len(c.Funcs), "obligations": len(out.obs), "failing": len(out.failing)}}
 	var extra []string
-	var matrix any
+	var matrix, seedMatrix any
 	if tier == "thorough" {
 		extraFail, cfgs, notes := thoroughConfigs(pid, repo, rules, kf)
 		configs = append(configs, cfgs...)
@@ -236,6 +236,7 @@ func runCheck(pid, tier, repo, verif string, writeFiles, jsonOut bool) int {
 		out.failing = append(out.failing, extraFail...)
 		if writeFiles {
 			matrix = runMutantMatrix(pid, repo, verif)
+			seedMatrix = runSeedMatrix(pid, repo, verif)
 		}
 	}
 
@@ -317,6 +318,9 @@ func runCheck(pid, tier, repo, verif string, writeFiles, jsonOut bool) int {
 		}
 		if matrix != nil {
 			cov["mutant_matrix"] = matrix
+		}
+		if seedMatrix != nil {
+			cov["seed_matrix"] = seedMatrix
 		}
 		ev := Evidence{
 			PropertyID: pid, Tier: tier, Seed: seed, Level: "other",
